@@ -140,7 +140,8 @@ ClassA0 == ClassAst(B("Top$In$$Lambda0"), B("a"))
 \* one class, <= MaxRecs entries that all share the obfuscated name m: method lookup must answer
 \* iff ALL of them carry the same original name (first = last is not enough)
 \* (the original class qualifier is NOT part of the comparison: p and x.Y.p agree)
-AmbigAlpha == {EntryAst(r, <<>>, oc, nm, B("m")) : r \in {<<>>, <<D(1), D(2)>>}, nm \in {B("p"), B("q")}, oc \in {<<>>, <<B("x.Y")>>}}
+\* (one of the two original names is "a", the obfuscated name of the class: the first string of the file)
+AmbigAlpha == {EntryAst(r, <<>>, oc, nm, B("m")) : r \in {<<>>, <<D(1), D(2)>>}, nm \in {B("p"), B("a")}, oc \in {<<>>, <<B("x.Y")>>}}
 
 \* ---- interval alphabet (mode "ranges") ------------------------------------------------------
 RangesAlpha == {EntryAst(r, <<>>, <<>>, nm, B("m")) :
